@@ -56,6 +56,10 @@ func ProfileFor(name string) Profile {
 		p.BatchOnly, p.MaxAuctions, p.BookBuilder, p.Blocks, p.TxPerBlock = true, 2, true, [2]int{4, 14}, 6
 		p.WInvalid, p.WCapChange, p.WModify = 0.08, 0.15, 0.2
 		p.MaxRounds = [2]int{0, 4}
+	case "bigbook": // order books of more than 12 bids (the implementation's bid sort changes algorithm there)
+		p.BatchOnly, p.MaxAuctions, p.BookBuilder, p.Blocks, p.TxPerBlock = true, 1, true, [2]int{4, 9}, 14
+		p.WInvalid, p.WCapChange, p.WModify, p.WForeign, p.WAdversary, p.WCancel = 0.02, 0.1, 0.1, 0.01, 0.0, 0.0
+		p.MaxRounds = [2]int{0, 2}
 	case "fixed": // C06
 		p.FixedOnly, p.MaxAuctions, p.TxPerBlock = true, 3, 5
 		p.WInvalid = 0.3
